@@ -5,6 +5,7 @@ from ..model import Func, AnalysisError
 from ..supergraph import callee_name
 from .. import queries as Q
 from .guards import guards
+from . import opt
 
 EXPLANATION = (
     'R14.1: reserve/release typestate with counting - after '
@@ -150,7 +151,7 @@ def r14_3(ctx, rc):
     R = ctx.R
     prog = ctx.prog
     F = R.builder_f('_make_dirs')
-    sg = ctx.E.super(F, lambda g: False)
+    sg = ctx.helpers_graph(F, stop=(R.builder + opt('._dirs_to_make'),))
     handoff = 'BuildDirs.error_making_dirs'
     have_handoff = handoff in prog.funcs
     mk = [x for x in sg.nodes if x.kind == 'ret' and
@@ -296,7 +297,7 @@ def _through_callers(ctx, func, expr, cn, stopname):
 
 def r14_4(ctx, rc):
     F = ctx.E.func('FileBackups.back_up_and_remove')
-    sg = ctx.E.super(F, lambda g: False)
+    sg = ctx.helpers_graph(F)
     mv = [x for x in sg.nodes if x.kind == 'ret' and
           callee_name(x) in ('os.rename', 'os.replace', 'shutil.move')]
     if not mv:
